@@ -1186,6 +1186,14 @@ func knownNonNil(v ssa.Value, depth int) bool {
 			}
 		}
 		return len(x.Edges) > 0
+	case *ssa.UnOp:
+		// a load of a package-level sentinel (`var errX = errors.New(…)`, a ConnectionError/StreamError value) that
+		// is assigned once, in the package initialiser, a value that is never nil
+		if x.Op == token.MUL {
+			if g, ok := x.X.(*ssa.Global); ok {
+				return sentinelNonNil(g)
+			}
+		}
 	case *ssa.Call:
 		switch calleeName(&x.Call) {
 		case "errors.New", "fmt.Errorf":
@@ -2517,6 +2525,9 @@ type valueCase struct {
 	V      ssa.Value
 	E      string
 	Guards []string
+	// Conds: for a case that is one edge of the outermost phi, the full conditions of that edge (common literals and
+	// an OR{…} over the alternatives), nil otherwise
+	Conds []string
 }
 
 // valueCases resolves v as used in block blk into its alternatives: a phi contributes one case per incoming edge (with
@@ -2524,6 +2535,7 @@ type valueCase struct {
 // "one store per branch" read alike through it.
 func (c *Ctx) valueCases(v ssa.Value, blk *ssa.BasicBlock) []valueCase {
 	var out []valueCase
+	var curConds []string
 	var walk func(v ssa.Value, gs []string, depth int)
 	walk = func(v ssa.Value, gs []string, depth int) {
 		for {
@@ -2557,12 +2569,22 @@ func (c *Ctx) valueCases(v ssa.Value, blk *ssa.BasicBlock) []valueCase {
 					if side >= 0 && oc[k] >= 0 && oc[k] != side {
 						continue
 					}
+					if depth == 0 {
+						curConds = c.edgeConds(d.Preds[k], d)
+					}
 					walk(e, uniq(append(append([]string{}, gs...), edgeGuards(c, d.Preds[k], d)...)), depth+1)
+					if depth == 0 {
+						curConds = nil
+					}
 				}
 			}
 			return
 		}
-		out = append(out, valueCase{v, c.Expr(v), gs})
+		vc := valueCase{V: v, E: c.Expr(v), Guards: gs}
+		if depth == 1 {
+			vc.Conds = curConds
+		}
+		out = append(out, vc)
 	}
 	walk(v, c.guardStrs(blk), 0)
 	return out
@@ -3097,7 +3119,7 @@ func absorbAlts(alts [][]string) [][]string {
 					}
 					ok := true
 					for _, x := range alts[i] {
-						if x != l && !has(alts[j], x) {
+						if x != l && (x == nl || !has(alts[j], x)) {
 							ok = false
 							break
 						}
@@ -3272,4 +3294,79 @@ func splitTop(s string) []string {
 		}
 	}
 	return append(out, strings.TrimSpace(s[from:]))
+}
+
+
+var sentinelCache = map[*ssa.Global]bool{}
+
+// sentinelNonNil: the only store to the package-level variable g anywhere in its package is in the package
+// initialiser and stores a value that cannot be nil.
+func sentinelNonNil(g *ssa.Global) bool {
+	if r, ok := sentinelCache[g]; ok {
+		return r
+	}
+	sentinelCache[g] = false
+	if g.Pkg == nil {
+		return false
+	}
+	n, ok := 0, true
+	for _, m := range g.Pkg.Members {
+		fn, isFn := m.(*ssa.Function)
+		if !isFn {
+			continue
+		}
+		for _, f := range withAnon(fn) {
+			for _, b := range f.Blocks {
+				for _, i := range b.Instrs {
+					switch st := i.(type) {
+					case *ssa.Store:
+						if st.Addr == ssa.Value(g) {
+							n++
+							if f.Name() != "init" || !knownNonNil(st.Val, 1) {
+								ok = false
+							}
+						}
+					default:
+						// the address of g taken for anything but a load
+						for _, op := range i.Operands(nil) {
+							if op != nil && *op == ssa.Value(g) {
+								if u, isU := i.(*ssa.UnOp); !(isU && u.Op == token.MUL) {
+									ok = false
+								}
+							}
+						}
+					}
+				}
+			}
+		}
+	}
+	// methods of the package's types may also touch it
+	if ok {
+		for _, m := range g.Pkg.Members {
+			if tn, isT := m.(*ssa.Type); isT {
+				for _, t := range []types.Type{tn.Type(), types.NewPointer(tn.Type())} {
+					ms := g.Pkg.Prog.MethodSets.MethodSet(t)
+					for k := 0; k < ms.Len(); k++ {
+						if f := g.Pkg.Prog.MethodValue(ms.At(k)); f != nil {
+							for _, ff := range withAnon(f) {
+								for _, b := range ff.Blocks {
+									for _, i := range b.Instrs {
+										for _, op := range i.Operands(nil) {
+											if op != nil && *op == ssa.Value(g) {
+												if u, isU := i.(*ssa.UnOp); !(isU && u.Op == token.MUL) {
+													ok = false
+												}
+											}
+										}
+									}
+								}
+							}
+						}
+					}
+				}
+			}
+		}
+	}
+	sentinelCache[g] = ok && n == 1
+	return sentinelCache[g]
 }
